@@ -172,6 +172,7 @@ class Oracles:
                "reward": reward, "done": done, "info": info, "real": False,
                "tag": tag, "state_obj": state}
         rec["post"] = sim_read(sim, next_state)
+        rec["info_snap"] = _canon_info(info)
         if self.P("C13"):
             self._c13_pure(rec, snap, poison)
         self._check_transition(rec)
@@ -365,6 +366,7 @@ class Oracles:
             self._c08(rec)
         if self.P("C09"):
             self._c09_state(rec["next_state"], post)
+            self._c09_aux(rec)
 
     # ---- C01 ----------------------------------------------------------
     def _c01(self, rec):
@@ -1046,6 +1048,23 @@ class Oracles:
             self.fail("C09.encode", "state tensor is not float32",
                       dtype=str(t.dtype))
 
+    def _c09_aux(self, rec):
+        obs, info = rec["obs2d"], rec["info"]
+        n = len(self.cfg.order)
+        if getattr(obs, "shape", None) != (n + 1, self.L.size):
+            return          # shape is reported by C09.obs-shape
+        want = [float(bool(info.get("success"))),
+                float(bool(info.get("connection_error"))),
+                float(bool(info.get("permission_error"))),
+                float(bool(info.get("undefined_error")))]
+        aux = obs[n]
+        if [float(v) for v in aux[:4]] != want or np.any(aux[4:] != 0):
+            self.fail("C09.aux", "the final row's first four entries must be "
+                      "success, connection error, permission error and "
+                      "undefined error (zeros after them)",
+                      aux=[float(v) for v in aux[:6]], expected=want,
+                      action=rec["act"]._asdict())
+
     def _c09_decode_initial(self, state):
         cfg, L = self.cfg, self.L
         for i, a in enumerate(cfg.order):
@@ -1304,8 +1323,13 @@ class Oracles:
             diffs.append("reward")
         if bool(g["done"]) != bool(r["done"]):
             diffs.append("terminal flag")
-        if _canon_info(g["info"]) != _canon_info(r["info"]):
+        if g.get("info_snap", _canon_info(g["info"])) != \
+                _canon_info(r["info"]):
             diffs.append("info")
+        if "info_snap" in g and _canon_info(g["info"]) != g["info_snap"]:
+            self.fail("C13.pure", "an info dict returned by an earlier "
+                      "generative step was rewritten afterwards",
+                      action=r["act"]._asdict())
         if diffs:
             self.fail("C13.agree", "step() and generative_step() disagree "
                       "under the same draw", differs=diffs,
@@ -1362,6 +1386,8 @@ class Oracles:
             self.probe("goal_query")
         elif what == "mask" and self.P("C11"):
             self._c11_mask()
+            from . import actionspace
+            actionspace.check_rebuild(self)
         elif what in ("readable", "roundtrip") and self.P("C09"):
             self._c09_roundtrip(env.current_state)
         elif what == "contains" and self.P("C10"):
